@@ -131,6 +131,8 @@ def twice(make):
 def splitf(kind, d):
     if kind == 'nonemod':       # a criterion that is None for some items (a missing field)
         return lambda x: None if x % d == 0 else x % d
+    if kind == 'bigf':          # float criteria one unit apart at a large magnitude (epoch seconds)
+        return lambda x: 1.7e9 + (x // d)
     if kind == 'tokdiv':        # runs of items share ONE identity-compared criterion object (a device / session object)
         return lambda x: SPLIT_TOKENS[(x // d) % 3]
     if kind == 'nanmod':        # ONE shared NaN object as the criterion of many items: it differs from itself, every item is a run
@@ -346,6 +348,8 @@ def _to_array_model(n, c):
 
 
 simple('to_array', INTLIKE, 'list', _to_array_build, _to_array_model, stateful=True, ct=True)
+simple('to_list_ll', INTLIKE, 'any', lambda n, e: rx.pipe(rs.ops.map(lambda x: [x] * (x % 3)), rs.data.to_list()),
+       lambda n, c: M.Chain(c, [M.Map(lambda x: [x] * (x % 3)), M.Scan(acc_append, list, True)]), stateful=True, ct=True)     # the items are lists themselves (also empty ones)
 simple('batch', '*', lambda t, n: listof(t), lambda n, e: rs.data.batch(n[1]), lambda n, c: M.Batch(n[1]), stateful=True, ct=True)
 
 
